@@ -20,6 +20,8 @@ CLAIMS = {
          "Same stand-in / stub assumptions; Kani does not prove termination."),
  "C10": ("2-safety contract on the real is_component: two visitor states that differ only in whether the Fragment helper was imported earlier classify every tag alike.",
          "Same stand-in / stub assumptions; the other state fields (assignment_left, slot counter) need the traversal and are not covered."),
+ "C12": ("Unit-level reading only: (i) 2-safety contract on the verbatim plain-attribute arm: two visitors that differ only in `optimize` contribute identical props / merge arguments; (ii) the verbatim hint-emission region of transform_jsx_element appends nothing without optimize and only the flag / dynamic-prop arguments with it, leaving type, props and children arguments untouched; (iii) the real transform_children / wrap_children emit the reserved `_` slot entry only under optimize and the same child list either way. The whole-module relational statement (same rendering for every module) is NOT decided.",
+         "Same stand-in / stub assumptions; spread arm, props assembly and directive arms do not read `optimize` (not separately proved as 2-safety); whole-transform relational property out of reach."),
  "C13": ("Chain of contracts on the real code: constants; is_jsx_attr_value_constant (sound constness); every arm of transform_attrs' fold and its finalisation block, extracted verbatim, against one shared step contract from an ARBITRARY analysis state (Kani, complete over the abstract domain); then a Verus induction over that contract for attribute lists of ANY length proving the statement's clauses.",
          "Same stand-in / stub assumptions; A-GLUE (the fold applies the arms in order from the declared initial state: checked syntactically by the extractor and, bounded, by whole-function harnesses in the thorough tier); slot-flag stack discipline across nested elements not covered."),
  "C14": ("Contracts on Options::default() (the documented defaults: complete) and on the private serde visitor RegexVisitor (a pattern is accepted exactly when regex::Regex::new accepts it, so an invalid pattern is rejected while the configuration is read). serde's derive semantics (absent = default, unknown keys ignored) and option isolation are not within reach.", "serde derive is an external dependency (assumed); regex::Regex::new is the stand-in's model (callee contract assumed)."),
@@ -35,7 +37,6 @@ NA = {
  "C06": "Whole-module scope/TDZ property relating declarations inserted by the traversal (visit_mut_module / visit_mut_stmts / visit_mut_arrow_expr) to uses generated arbitrarily deep; needs the macro-generated swc traversal and hygiene, JS scoping semantics, and ghost state across re-entrant visitor calls: no contract within reach of Kani or Verus expresses it.",
  "C09": "Frame property over the whole traversal (every non-JSX statement unchanged, in order) plus a fixed-point property of the whole transform; needs the VisitMut traversal of the real swc_ecma_visit, which neither verifier can ingest.",
  "C11": "About evaluation order and multiplicity of the emitted JavaScript; the Rust-side counterpart (each embedded expression moved into the output once, in order) is a linearity property over owned AST across transform_attrs / transform_children / wrap_children that needs a JS semantics to state.",
- "C12": "Relational (2-run) property over the whole transform under optimize on/off; locally a read-frame on functions that are only reachable as wholes at > 20 GB per instance; not decidable with the installed tools within the sandbox.",
  "C16": "resolve_type_elements / resolve_indexed_access / build_props_type recurse through alias and interface maps over owned TS AST without a termination measure; only the leaf table (C17) is within reach.",
  "C18": "Default-value classification wraps cloned expressions in arrow functions and the claim is about the value Vue resolves at runtime: JavaScript semantics.",
  "C19": "extract_emits_type is resolve_type_elements + resolve_string_or_union_strings over owned TS AST (same reach limit as C16).",
